@@ -36,6 +36,11 @@ type l16 struct {
 	shape  map[string]bool
 	opts   harness.Options
 	dir    string
+	// the service whose black list was last replaced at once, the sources named by any of its lists so
+	// far, and how many probes are still aimed at those pairs
+	blDst  string
+	blSrcs map[string][]string
+	blAim  int
 }
 
 const happyRule = "0x00000000000000000000000000000000000000a2"
@@ -91,6 +96,24 @@ func (l *l16) govOp() []string {
 		}
 		tx, desc = w.BVM(adm, harness.AddrGov, "Vote", pb.String(pid), pb.String(ballot), pb.String("r")), fmt.Sprintf("vote %s on %s", ballot, pid)
 		concerns = []string{l.objOf[pid]}
+	case x < 41:
+		// black list only (name and details kept): takes effect at once, no proposal
+		bl := []string{"", harness.FullID(harness.ChainA, "s1"), harness.FullID(harness.ChainA, "s2") + "," + harness.FullID(harness.ChainC, "s1")}[r.Intn(3)]
+		if t, ok := w.PermitOnlyUpdate(ca, svc, bl); ok {
+			tx, desc, concerns = t, "UpdateService(black list only) "+svc+" <- ["+bl+"]", []string{svc}
+			l.w.Count("permit_only_updates", 1)
+			if l.blSrcs == nil {
+				l.blSrcs = map[string][]string{}
+			}
+			for _, s := range strings.Split(bl, ",") {
+				if s != "" {
+					l.blSrcs[svc] = append(l.blSrcs[svc], strings.TrimPrefix(s, harness.BxhID+":"))
+				}
+			}
+			l.blDst, l.blAim = svc, 3
+		} else {
+			tx, desc, concerns = w.BVM(ca, harness.AddrService, "ActivateService", pb.String(svc), pb.String("r")), "ActivateService "+svc, []string{svc}
+		}
 	case x < 44:
 		tx, desc, concerns = w.BVM(ca, harness.AddrService, "UpdateService", pb.String(svc), pb.String(fmt.Sprintf("nm%d", r.Intn(1e6))), pb.String("i"), pb.String([]string{"", harness.FullID(harness.ChainA, "s1")}[r.Intn(2)]), pb.String("d"), pb.String("r")), "UpdateService "+svc, []string{svc}
 	case x < 51:
@@ -179,6 +202,13 @@ func (l *l16) probe() {
 	svcs := []string{"chainA:s1", "chainA:s2", "chainB:s1", "chainB:s2", "chainC:s1", "chainC:s2", "chainB:s3", "chainA:s3", "chainC:ghost"}
 	src := svcs[r.Intn(7)]
 	dst := svcs[r.Intn(len(svcs))]
+	if l.blAim > 0 && len(l.blSrcs[l.blDst]) > 0 && r.Intn(3) != 0 {
+		// aim at a pair whose gating just changed (now blocked, or blocked before and no longer)
+		l.blAim--
+		dst = l.blDst
+		src = l.blSrcs[dst][r.Intn(len(l.blSrcs[dst]))]
+		l.w.Count("probes_aimed_at_changed_black_list", 1)
+	}
 	if strings.Split(src, ":")[0] == strings.Split(dst, ":")[0] {
 		return
 	}
@@ -347,6 +377,11 @@ func lc16Case(w *vlog.W, a *wargs, id int, rng *rand.Rand, opts harness.Options)
 			h = h[:30]
 		}
 		w.Sample(map[string]interface{}{"case": id, "opts": opts, "history": h})
+	}
+	if debug {
+		for _, h := range l.hist {
+			fmt.Fprintln(os.Stderr, h)
+		}
 	}
 	w.CaseDone(fmt.Sprintf("audit%v|%s", !opts.NoAudit, strings.Join(sh, ",")), true)
 }
